@@ -171,6 +171,9 @@ pub fn exec_session(run: &Run, focus: Focus, sess: &Session, stats: &Stats, budg
                     traces.push(("panic".into(), o.infos));
                     return traces;
                 }
+                if let (Ok(m), Some(last)) = (&o.best, o.infos.last()) {
+                    run.distinct_outcome(format!("{m:?} {}{} d{} n{}", if last.score.0 { "mate" } else { "cp" }, last.score.1, last.depth, o.infos.len()));
+                }
                 traces.push((o.best.as_ref().map(|m| format!("{m:?}")).unwrap_or_default(), o.infos));
             }
         }
@@ -335,7 +338,7 @@ pub fn c04_c08(run: &Run, focus: Focus) -> (u64, u64) {
     };
     let mut total_sessions = 0u64;
     // endgames
-    let wks: Vec<u8> = if quick { vec![{ let (f, r) = TRIANGLE[(mix(run.seed) % 10) as usize]; sq(f, r) }] } else { TRIANGLE.iter().map(|(f, r)| sq(*f, *r)).collect() };
+    let wks: Vec<u8> = if quick { (0..2).map(|k| { let (f, r) = TRIANGLE[((mix(run.seed) + k * 3) % 10) as usize]; sq(f, r) }).collect() } else { TRIANGLE.iter().map(|(f, r)| sq(*f, *r)).collect() };
     for man in [(Color::W, Kind::Q), (Color::W, Kind::R), (Color::W, Kind::P), (Color::B, Kind::Q)] {
         let mut sessions = vec![];
         for wk in &wks {
